@@ -61,6 +61,11 @@ class EventError(StateMachineError):
         super().__init__(msg)
         self.event = evt
 
+    def __reduce__(self) -> Any:
+        # (``args`` only holds the message: without this the exception cannot be copied, pickled or dumped and loaded again,
+        # and neither can the saved state of a process that excepted with it)
+        return self.__class__, (self.event, *self.args)
+
 
 class TransitionFailed(Exception):  # noqa: N818
     """A state transition failed"""
